@@ -67,6 +67,33 @@ def extract(repo):
            "  scope : Scope       -- the item under the cursor / every listed item", "  kind : Kind", "  deriving DecidableEq, Repr", ""]
     for name, g, sc, k in rows:
         out += ["/-- `fn %s` -/" % name, "def %s : Act := { guarded := %s, scope := %s, kind := %s }" % (name, g, sc, k), ""]
+    # src/global.rs: the run-number table
+    g = open(os.path.join(repo, "src", "global.rs")).read()
+    m1 = re.search(r"static ref RUN_NUM: AtomicU32 = AtomicU32::new\((\d+)\);", g)
+    m2 = re.search(r"static ref SEQ: AtomicU32 = AtomicU32::new\((\d+)\);", g)
+    m3 = re.search(r"static ref NUM_MAP: Mutex<HashMap<String, u32>> = \{ let mut m = HashMap::new\(\); ((?:m\.insert\([^;]*\); )*)Mutex::new\(m\) \};",
+                   norm(g))
+    if not (m1 and m2 and m3):
+        raise R.Unsupported("global.rs: RUN_NUM / SEQ / NUM_MAP initialisers not understood")
+    entries = re.findall(r'm\.insert\("([^"\\]*)"\.to_string\(\), (\d+)\);', m3.group(1))
+    if len(entries) != m3.group(1).count("m.insert("):
+        raise R.Unsupported("global.rs: NUM_MAP initial entries not understood")
+    b = norm(R.fn_body(g, "mark_new_run")[0])
+    m4 = re.fullmatch(r"let mut map = NUM_MAP\.lock\(\)\.expect\([^;]*\); let query = query\.to_string\(\); "
+                      r"let run_num = \*map\.entry\(query\)\.or_insert_with\(\|\| SEQ\.fetch_add\((\d+), Ordering::\w+\)\); "
+                      r"(RUN_NUM\.store\(run_num, Ordering::\w+\); )?run_num", b)
+    if not m4:
+        raise R.Unsupported("global.rs: mark_new_run is not `lock; entry(query).or_insert_with(SEQ.fetch_add(k)); [store]; run_num`")
+    if norm(R.fn_body(g, "current_run_num")[0]) not in ("RUN_NUM.load(Ordering::SeqCst)", "RUN_NUM.load(Ordering::Acquire)"):
+        raise R.Unsupported("global.rs: current_run_num is not a load of RUN_NUM")
+    out += ["/-! src/global.rs -/", "",
+            "/-- the entries `NUM_MAP` starts with -/",
+            "def runInitMap : List (String × Nat) := [%s]" % ", ".join('("%s", %s)' % e for e in entries),
+            "/-- `SEQ` starts at -/", "def runInitSeq : Nat := %s" % m2.group(1),
+            "/-- `RUN_NUM` starts at -/", "def runInitCur : Nat := %s" % m1.group(1),
+            "/-- `SEQ.fetch_add(k)` for a command string not seen before -/", "def runSeqStep : Nat := %s" % m4.group(1),
+            "/-- `mark_new_run` stores the number into `RUN_NUM` (what `current_run_num` loads) -/",
+            "def runStores : Bool := %s" % ("true" if m4.group(2) else "false"), ""]
     out += ["end SkimModel.Generated.SelOps", ""]
     return "\n".join(out)
 
